@@ -613,6 +613,16 @@ func (idx *indexer) valBuffer(vLen int) []byte {
 	return idx._val[:vLen]
 }
 
+// kvt returns the i-th entry of the bulk being prepared. The pre-allocated entries are one per transaction
+// entry: an injective mapping also yields the deletion of the previously mapped key, so a transaction may
+// produce up to twice as many index entries as it has entries.
+func (idx *indexer) kvt(i int) *tbtree.KVT {
+	for i >= len(idx._kvs) {
+		idx._kvs = append(idx._kvs, &tbtree.KVT{})
+	}
+	return idx._kvs[i]
+}
+
 func (idx *indexer) indexSince(txID uint64) error {
 	ctx, cancel := context.WithTimeout(context.Background(), idx.bulkPreparationTimeout)
 	defer cancel()
@@ -672,9 +682,10 @@ func (idx *indexer) indexSince(txID uint64) error {
 
 			// targetKey may alias the key buffer of idx.tx, which is reused
 			// when reading the next transaction of the same bulk
-			idx._kvs[indexableEntries].K = append([]byte(nil), targetKey...)
-			idx._kvs[indexableEntries].V = b[:n]
-			idx._kvs[indexableEntries].T = txID + uint64(i)
+			kvt := idx.kvt(indexableEntries)
+			kvt.K = append([]byte(nil), targetKey...)
+			kvt.V = b[:n]
+			kvt.T = txID + uint64(i)
 
 			indexableEntries++
 			txIndexedEntries++
@@ -739,9 +750,10 @@ func (idx *indexer) indexSince(txID uint64) error {
 
 					n := serializeIndexableEntry(b[:], txmd, prevEntry, kvmd.Bytes())
 
-					idx._kvs[indexableEntries].K = targetPrevKey
-					idx._kvs[indexableEntries].V = b[:n]
-					idx._kvs[indexableEntries].T = txID + uint64(i)
+					kvt := idx.kvt(indexableEntries)
+					kvt.K = targetPrevKey
+					kvt.V = b[:n]
+					kvt.T = txID + uint64(i)
 
 					indexableEntries++
 					txIndexedEntries++
